@@ -83,7 +83,7 @@ def run(pid, tier, cfg):
                          timeout=m.get("timeout", 1800), env_extra=m.get("env"), xmx=m.get("xmx", "6g"))
         if not r.ok:
             # a failing design-level invariant is a spec-level counterexample
-            log(r.error_text)
+            log(r.error_text[:1500])
             path = vlib.save_replay(pid, "mc", {"kind": "tlc-counterexample", "module": m["module"], "cfg": m["cfg"], "output": r.error_text})
             vlib.write_evidence(pid, tier, "model_checking", {"evaluations": 1, "distinct_nontrivial": 0,
                                 "explanation": "TLC reported an error on the design-level model", "samples": [r.error_text[:500]]},
